@@ -297,6 +297,11 @@ def run(chk):
     na = argmin_rule(chk, db, "C04-D6.tree")
     chk.floor("C04-D6.tree", na, 1, "index-recording argmin loops with a known maximum (root search of buildTree)")
 
+    from rules import dispatch
+    chk.rule("C04-D7.dispatch", "every switch(effective_rule) instantiates, in each case, the templates for the rule of that case: all routes of one grid use the same hierarchy and basis")
+    ndsp = dispatch.dispatch_rule(chk, db, "C04-D7.dispatch")
+    chk.floor("C04-D7.dispatch", ndsp, 15, "rule-dispatch switches")
+
     return ("Static rule discharge: closed forms of the local bases (partial evaluation) give the support identities and the exact basis integrals; the sparse/dense builders are siblings of "
             "one tree walk; coefficient overwrites recompute the stored values on every path; block partitions are evaluated as closed forms over batch sizes; the evaluation tree is rebuilt "
             "after every change of the loaded points. Numerical equality of the routes for every state and x is not decided.")
